@@ -66,6 +66,9 @@ func (t ResetTransition) do(env *Environment) (err error) {
 	if tasksStateErrors := incomingEv.GetTasksStateChangedError(); tasksStateErrors != nil {
 		return tasksStateErrors
 	}
+	if err = criticalTasksInError(env, "RESET"); err != nil {
+		return err
+	}
 
 	env.sendEnvironmentEvent(&event.EnvironmentEvent{EnvironmentID: env.Id().String(), State: "RESET"})
 	return
